@@ -243,6 +243,22 @@ pub fn run(p: &Params, rep: &mut Report) {
         }
     }
     for_max_loop_programs(p, rep, p.size(20, 200), |prog, seed, rep| check_program(prog, seed, p.thorough, rep));
+    {
+        // loops over a word followed by an overlapping word: (ab)*bc and the like, all subjects up to 4 (5) letters
+        let mut rng = p.rng(0x4C57);
+        for _ in 0..p.size(40, 400) {
+            let prog = loopword_program(&mut rng);
+            let seed = rng.next();
+            rep.inc("loop_over_word_programs");
+            if let Err(msg) = guard(|| check_program(&prog, seed, p.thorough, rep)) {
+                if panic_in_harness(&msg) {
+                    rep.harness_error(format!("monitor panicked: {}", msg));
+                } else {
+                    rep.violation("panic", "panic-unguarded", format!("crate panicked: {}", msg), KIND_WRAP, &prog.to_text(), seed);
+                }
+            }
+        }
+    }
     let n = p.size(300, 3000);
     let w = [(Profile::Boundary, 20), (Profile::Loops, 30), (Profile::Boolean, 25), (Profile::Patterns, 10), (Profile::Mixed, 15)];
     let mut rng = p.rng(10);
